@@ -41,7 +41,7 @@ def gen(rng, ctx):
         ni = rng.randint(10, 14)
         cd = G.rand_circuit(rng, ni, rng.randint(3, 9), max_fanin=5, p_wide=0.4, p_const=0.1)
         nodes = [n for n, _, _ in cd["nodes"]]
-        A = {n: rng.random() < 0.5 for n in rng.sample(nodes, rng.randint(0, 2))}
+        A = {n: rng.random() < 0.5 for n in rng.sample(nodes, rng.randint(0, min(2, len(nodes))))}
         return {"c": cd, "kind": "wide_approx", "assumps": [A], "probes": []}
     if r < 0.08:
         ni = 0
